@@ -355,11 +355,13 @@ def profile_arrays(case, powers_dB):
     return p, d
 
 
-def build_profile(case):
+def build_profile(case, held=None):
     """discretised profile with exact (perfect-square) linear powers"""
     from pyphysim.channels import fading
     Ts = case['Ts']
     p0, d0 = profile_arrays(case, np.zeros(len(case['delays'])))
+    if held is not None:
+        held += [p0, d0]
     keep = (p0.copy(), d0.copy())
     prof = fading.TdlChannelProfile(p0, d0).get_discretize_profile(Ts)
     assert np.array_equal(p0, keep[0]) and np.array_equal(d0, keep[1]), 'profile arrays modified'
@@ -381,6 +383,18 @@ def np_int(v, t):
 
 
 def build_channel(case):
+    """R16 (`prof_scribble`): the caller overwrites the tap arrays it built the profile / channel from as soon
+    as the constructor has returned - the object must live on the values it was given"""
+    held = []
+    ch = _build_channel(case, held)
+    if case.get('prof_scribble'):
+        for a in held:
+            if not scribble(a):
+                raise AssertionError('the constructor made the caller\'s tap array read-only')
+    return ch
+
+
+def _build_channel(case, held):
     """the real object of a scenario.  `real` scenarios use the untouched generators and a dB profile,
     the others scripted fading and perfect-square powers.  R8: the constructor arguments are given
     positionally or by keyword, as a discretised profile object / a profile object plus Ts / tap arrays
@@ -394,6 +408,7 @@ def build_channel(case):
     if real:
         np.random.seed(case['npseed'])
         p0, d0 = profile_arrays(case, case['powers_dB'])
+        held += [p0, d0]
         prof = fading.TdlChannelProfile(p0, d0)
         if form == 'profile' and case.get('prediscretized', True):
             prof = prof.get_discretize_profile(Ts)
@@ -406,10 +421,11 @@ def build_channel(case):
     else:
         ScriptedRayleigh, ScriptedJakes = _generators()
         if form == 'profile':
-            prof = build_profile(case)
+            prof = build_profile(case, held)
         else:
             assert case['amps'] == ['1'] and len(case['delays']) == 1, 'exact only for one 0 dB tap'
             p0, d0 = profile_arrays(case, np.zeros(1))
+            held += [p0, d0]
             prof = fading.TdlChannelProfile(p0, d0)
         script = Script(case['seed'], first_link=-1 if case['level'] == 'mu' else case['link'])
 
@@ -544,16 +560,79 @@ def make_fft(op):
     return getattr(np, t)(op['fft']) if t else op['fft']
 
 
+R16KEYS = ('buf', 'idxbuf', 'scribble', 'alias')
+
+
+def same_kind(o, n):
+    return (isinstance(o, np.ndarray) and isinstance(n, np.ndarray) and o.shape == n.shape and o.dtype == n.dtype
+            and o.strides == n.strides and o.flags['WRITEABLE'])
+
+
+def scribble(a):
+    """R16: what a caller may do with ITS array once the call has returned (other, still plausible values);
+    False when the call has frozen the caller's array"""
+    if isinstance(a, (list, tuple)):
+        if isinstance(a, list) and a and all(isinstance(v, int) for v in a):
+            a[:] = [0 if any(a) else 1] * len(a)
+            return True
+        return all([scribble(v) for v in a])
+    if not isinstance(a, np.ndarray) or not a.size:
+        return True
+    if not a.flags['WRITEABLE']:
+        return False
+    if np.issubdtype(a.dtype, np.integer):
+        a[...] = 0 if a.any() else 1
+    else:
+        a[...] = 0.375 if float(np.max(np.abs(a))) <= 1.0 else 7.25e7
+    return True
+
+
 class Rec:
-    """R3 bookkeeping: snapshots of every array passed in, and of every array handed back"""
+    """R3 bookkeeping: snapshots of every array passed in, and of every array handed back.
+    R16 bookkeeping: the caller's long-lived argument buffers (`bufs`), refilled in place between calls."""
 
     def __init__(self):
         self.inputs, self.outputs = [], []
+        self.bufs, self.early, self.refills = {}, [], 0
 
     def passing(self, what, a):
         if isinstance(a, np.ndarray):
             self.inputs.append((what, a, a.copy(), a.dtype, a.strides))
         return a
+
+    def reuse(self, key, a):
+        """R16: the caller keeps ONE object per argument and refills it in place (`buf[...] = new`) before
+        each call; a new one is allocated only when shape / element type / layout change"""
+        old = self.bufs.get(key)
+        if isinstance(a, list):
+            if isinstance(old, list) and len(old) == len(a):
+                if all(isinstance(v, int) for v in a) and all(isinstance(v, int) for v in old):
+                    old[:] = a
+                    self.refills += 1
+                    return old
+                if all(same_kind(o, n) for o, n in zip(old, a)):
+                    for o, n in zip(old, a):
+                        o[...] = n
+                    self.refills += 1
+                    return old
+            self.bufs[key] = a
+            return a
+        if same_kind(old, a):
+            old[...] = a
+            self.refills += 1
+            return old
+        self.bufs[key] = a
+        return a
+
+    def settle(self, volatile):
+        """after a call: arguments the caller is going to overwrite are compared with their snapshots NOW
+        (the others stay pending until the end of the history)"""
+        if not volatile:
+            return
+        pending, self.inputs = self.inputs, []
+        for what, a, snap, dt, st in pending:
+            if a.dtype != dt or a.shape != snap.shape or not np.array_equal(a, snap):
+                self.early.append('input-modified:' + what)
 
     def returned(self, what, a, against=()):
         for arr in (a if isinstance(a, (list, tuple)) or (isinstance(a, np.ndarray) and a.dtype == object) else [a]):
@@ -565,7 +644,7 @@ class Rec:
         return None
 
     def violations(self):
-        out = []
+        out = list(self.early)
         for what, a, snap, dt, st in self.inputs:
             if a.dtype != dt or a.shape != snap.shape or not np.array_equal(a, snap):
                 out.append('input-modified:' + what)
@@ -641,7 +720,21 @@ def run_queries(ch, case, op):
 
 def apply_op(ch, case, op, rec, patched):
     """one operation on the real object; returns ('y', array) | ('ir', [responses]) | ('ok',) |
-    ('fork', new object).  R8: `kw` gives the arguments by keyword, `omit` leaves defaulted ones out."""
+    ('fork', new object).  R8: `kw` gives the arguments by keyword, `omit` leaves defaulted ones out.
+    R16: `buf` / `idxbuf` hand over the caller's long-lived buffer refilled in place, `alias` one object in
+    two roles, `scribble` overwrites the caller's arrays as soon as the call has returned."""
+    held = []           # the caller's array / list objects this call hands to the library
+    try:
+        return _apply_op(ch, case, op, rec, patched, held)
+    finally:
+        rec.settle(any(op.get(f) for f in R16KEYS))
+        if op.get('scribble'):
+            for what, a in held:
+                if not scribble(a):
+                    rec.early.append('input-modified:%s:made-read-only' % what)
+
+
+def _apply_op(ch, case, op, rec, patched, held):
     k = op['op']
     mu = case['level'] == 'mu'
     kw = bool(op.get('kw'))
@@ -670,7 +763,12 @@ def apply_op(ch, case, op, rec, patched):
         return ('ok',)
     if k in ('pl', 'plbad'):
         if mu:
-            v = None if (op.get('s') is None and op.get('p') is None) else rec.passing('pathloss-matrix', make_plmatrix(op))
+            v = None
+            if not (op.get('s') is None and op.get('p') is None):
+                v = make_plmatrix(op)
+                if op.get('buf'):
+                    v = rec.reuse('pl', v)
+                held.append(('pathloss-matrix', rec.passing('pathloss-matrix', v)))
             if kw:
                 ch.set_pathloss(pathloss_matrix=v)
             else:
@@ -702,6 +800,11 @@ def apply_op(ch, case, op, rec, patched):
             ch.generate_impulse_response(n)
         return ('ok',)
     sig = make_signal(case, op)
+    if op.get('alias') == 'sources-share-array' and mu and len(sig):
+        sig = [sig[0] for _ in range(len(sig))]           # ONE array object as the signal of every source
+    if op.get('buf'):
+        sig = rec.reuse('sig', sig)
+    held.append(('signal', sig))
     if isinstance(sig, list):
         for a in sig:
             rec.passing('signal', a)
@@ -712,6 +815,11 @@ def apply_op(ch, case, op, rec, patched):
         against = tuple(sig) if isinstance(sig, list) else (sig,)
     else:
         idx = sel2py(op['sel'])
+        if op.get('alias') == 'signal-is-index-array':
+            idx = sig                                       # ONE integer array: the symbols and the carriers
+        elif op.get('idxbuf') and isinstance(idx, (np.ndarray, list)):
+            idx = rec.reuse('idx', idx)
+        held.append(('carrier-indexes', idx))
         rec.passing('carrier-indexes', idx)
         fft = make_fft(op)
 
@@ -1107,7 +1215,42 @@ def op_tags(case, op):
         t.append('R13:derived-responses')
     if k == 'fork':
         t.append('R13:deepcopy-continued')
+    if k == 'pl' and op.get('close'):
+        t.append('R15:pathloss-close-to-previous')
+    if op.get('buf'):
+        t.append('R16:pathloss-matrix-from-reused-buffer' if k == 'pl' else 'R16:signal-from-reused-buffer')
+    if op.get('idxbuf') and k == 'fx' and op['sel']['kind'] == 'idx' and not op.get('alias'):
+        t.append('R16:index-array-from-reused-buffer')
+    if op.get('scribble'):
+        t.append('R16:argument-overwritten-after-call')
+    if op.get('alias'):
+        t.append('R16:' + op['alias'])
     return t
+
+
+def count_refills(case):
+    """R16: how often a history really hands over an argument object it has handed over before, with new
+    contents (dry run of the caller's side only)"""
+    rec = Rec()
+    mu = case['level'] == 'mu'
+    for op in case['ops']:
+        k = op['op']
+        try:
+            if k == 'pl' and mu and op.get('buf') and not (op.get('s') is None and op.get('p') is None):
+                rec.reuse('pl', make_plmatrix(op))
+            if k in ('tx', 'fx'):
+                sig = make_signal(case, op)
+                if op.get('alias') == 'sources-share-array' and mu and len(sig):
+                    sig = [sig[0] for _ in range(len(sig))]
+                if op.get('buf'):
+                    rec.reuse('sig', sig)
+                if k == 'fx' and op.get('idxbuf') and not op.get('alias'):
+                    idx = sel2py(op['sel'])
+                    if isinstance(idx, (np.ndarray, list)):
+                        rec.reuse('idx', idx)
+        except Exception:       # noqa  (a malformed signal of a rejected call)
+            continue
+    return rec.refills
 
 
 def case_features(case):
@@ -1166,6 +1309,12 @@ def case_features(case):
     if ntx >= 2:
         f.add('history>=2')
     f.add('R3:snapshots-compared')
+    if any(Fraction(a) ** 2 < Fraction(1, 10 ** 8) for a in case['amps']) and len(case['amps']) >= 2:
+        f.add('R15:tap-power-below-1e-8')
+    if case.get('prof_scribble'):
+        f.add('R16:tap-arrays-overwritten-after-construction')
+    if any(op.get('buf') or op.get('idxbuf') for op in case['ops']) and count_refills(case):
+        f.add('R16:buffer-refilled-in-place')
     return f
 
 
@@ -1771,9 +1920,12 @@ def o_history(case):
     if prof_state != (np.asarray(prof.tap_delays).tobytes(), np.asarray(prof.tap_powers_linear).tobytes(), prof.Ts):
         return 'R7:shared-profile-modified', 'the channel profile object changed during the history'
     passive = any(op['op'] in ('query', 'fork') for op in case['ops'])
-    if any_rejected or passive:
-        # the twin never sees the calls that were rejected, nor the read-only calls, and is never copied
+    reused = any(op.get(f) for op in case['ops'] for f in R16KEYS) or bool(case.get('prof_scribble'))
+    if any_rejected or passive or reused:
+        # the twin never sees the calls that were rejected, nor the read-only calls, and is never copied;
+        # R16: it gets a fresh array for every argument of every call, and nothing is overwritten afterwards
         twin_case = dict(case, ops=[dict(op) for op in case['ops']])
+        twin_case.pop('prof_scribble', None)
         ch2 = any_channel(twin_case)
         rec2 = Rec()
         got = []
@@ -1781,7 +1933,7 @@ def o_history(case):
             if op.get('expect', 'ok') == 'reject' or op['op'] in ('query', 'fork'):
                 continue
             try:
-                res = apply_op(ch2, case, op, rec2, False)
+                res = apply_op(ch2, case, {f: v for f, v in op.items() if f not in R16KEYS}, rec2, False)
             except Exception:
                 continue
             if res[0] == 'fork':
@@ -1792,9 +1944,11 @@ def o_history(case):
             if oi != oj or len(ya) != len(yb) or any(a.shape != b.shape or not np.array_equal(a, b)
                                                       for a, b in zip(ya, yb)):
                 return (('R4:history-differs-from-object-without-rejected-calls' if any_rejected else
-                         'R11:history-differs-from-object-without-queries-and-copies'),
+                         ('R11:history-differs-from-object-without-queries-and-copies' if passive else
+                          'R16:history-differs-from-object-given-fresh-arrays')),
                         'transmission at op %d differs from the same transmission on a fresh object that '
-                        'never saw the rejected / read-only calls and was never copied' % oi)
+                        'never saw the rejected / read-only calls, was never copied and got a fresh array for '
+                        'every argument' % oi)
     return None
 
 
